@@ -63,7 +63,7 @@ Check(ev) ==
     [] ev.ev = "run_ret" /\ ev.val = "nil" /\ ev.s = "expect-error" -> "C17_RunFailsWhenItCannotListen"
     [] ev.ev = "ready" /\ ev.val = "dial-failed" -> "C17_ReadyImpliesListening"
     [] ev.ev = "ready_sample" /\ ev.k = "pre_listen" /\ ev.val = "true" -> "C17_NotReadyBeforeListening"
-    [] ev.ev = "tlsup" /\ ev.val # "ok" -> "C13_HandshakeSeesFirstClientByte"
+    [] ev.ev = "tlsup" /\ ev.val # "ok" /\ InTags(ev.c) /\ ~quiet[ev.c] -> "C13_HandshakeSeesFirstClientByte"   \* (a stopping server abandons the upgrade)
     [] ev.ev = "hend" /\ ev.val = "tls-err" /\ InTags(ev.c) /\ ~quiet[ev.c] -> "C13_HandshakeSeesFirstClientByte"
     [] ev.ev = "plain_after_upgrade" -> "C13_EverythingIsTLSAfterUpgrade"
     [] ev.ev = "proc_exit" -> "C07_ProcessSurvives"
